@@ -192,6 +192,14 @@ Section Conv.
         Some (from_lists paths firsts lls lps (ones (length lls)))
     end.
 
+  (* ---- PySwarms, repaired conversion (proposed_fixes/C05-pyswarms-pbest-samples): the samples are the
+     particles' personal bests, each stored by pyswarms with its own cost ---- *)
+  Definition pyswarms_pbest_convert (paths : list path) (pbest_pos : list (list V)) (pbest_cost : list V)
+    : option (list sample) :=
+    let lps := map prior pbest_pos in
+    let lls := map2 sub (map neghalf pbest_cost) lps in
+    Some (from_lists paths pbest_pos lls lps (ones (length lls))).
+
   (* ---- best fit ---- *)
   (* Samples.max_log_likelihood_sample: replace when strictly greater *)
   Fixpoint max_ll_from (cur : sample) (l : list sample) : sample :=
@@ -259,6 +267,7 @@ Section FInst.
   Definition f_bfgs_vis := bfgs_vis_convert float 0x1p+0%float fprior.
   Definition f_drawer := drawer_convert float PrimFloat.sub 0x1p+0%float fprior.
   Definition f_pyswarms := pyswarms_convert float PrimFloat.sub fneghalf 0x1p+0%float fprior.
+  Definition f_pyswarms_pbest := pyswarms_pbest_convert float PrimFloat.sub fneghalf 0x1p+0%float fprior.
 End FInst.
 
 (* int(3.0 * max(times)), int(max(times) / 2.0) *)
@@ -275,7 +284,8 @@ Inductive fstate :=
 | FBfgs (x : list float) (post : float)
 | FBfgsVis (hist : list (list float)) (hist_ll : list float)
 | FDrawer (rows : list (list float)) (post : list float)
-| FPyswarms (pos : list (list (list float))) (cost : list float).
+| FPyswarms (pos : list (list (list float))) (cost : list float)
+| FPyswarmsPbest (pbest_pos : list (list float)) (pbest_cost : list float).
 
 Definition convert_state (ptab : list (list float * float)) (etab : list (float * float))
            (paths : list path) (st : fstate) : option (list fsample) :=
@@ -296,6 +306,7 @@ Definition convert_state (ptab : list (list float * float)) (etab : list (float 
   | FBfgsVis hist hl => f_bfgs_vis ptab paths hist hl
   | FDrawer rows post => f_drawer ptab paths rows post
   | FPyswarms pos cost => f_pyswarms ptab paths pos cost
+  | FPyswarmsPbest rows cost => f_pyswarms_pbest ptab paths rows cost
   end.
 
 (* what the harness observes on the returned Samples object *)
